@@ -79,13 +79,13 @@ def read_pickle(path):
 
 
 def batch_files(crop):
-    fs = glob.glob(os.path.join(crop.location, "batches", "xyz-batch-*.jbdmp"))
+    fs = glob.glob(os.path.join(glob.escape(crop.location), "batches", "xyz-batch-*.jbdmp"))
     ids = sorted(int(re.findall(r"xyz-batch-(\d+)\.jbdmp$", f)[0]) for f in fs)
     return ids
 
 
 def result_ids(crop):
-    fs = glob.glob(os.path.join(crop.location, "results", "xyz-result-*.jbdmp"))
+    fs = glob.glob(os.path.join(glob.escape(crop.location), "results", "xyz-result-*.jbdmp"))
     return sorted(int(re.findall(r"xyz-result-(\d+)\.jbdmp$", f)[0]) for f in fs)
 
 
